@@ -15,7 +15,16 @@ def asan(name="asan", **kw):
     d.update(kw)
     return d
 
+def script(name, module, func, **kw):
+    d = {"name": name, "kind": "script", "module": module, "func": func}
+    d.update(kw)
+    return d
+
 CHECKS = {
+    "C07": {"crate": "h_store", "bin": "c07", "level": "exploration", "legs": [
+        native(),
+        script("strace-kill", "legs_c07", "strace_leg"),
+    ]},
     "C11": {"crate": "h_store", "bin": "c11", "level": "exploration", "legs": [
         native(),
         tsan(args={"quick": {"part": "stress", "budget-s": 25}, "thorough": {"part": "stress", "budget-s": 300}}),
